@@ -14,6 +14,9 @@ import (
 type Case struct {
 	Harness string   `json:"harness"`
 	Vector  []uint64 `json:"vector"`
+	// Repeat > 1 runs the case up to that many times and reports the first
+	// run that does not end "ok" (schedule-dependent counterexamples).
+	Repeat int `json:"repeat,omitempty"`
 }
 
 // Outcome is the native result of a Case.
@@ -89,7 +92,11 @@ func RunFile(fns map[string]func()) error {
 			outs = append(outs, Outcome{Harness: c.Harness, Status: "missing"})
 			continue
 		}
-		outs = append(outs, RunOne(fn, c, 20*time.Second))
+		o := RunOne(fn, c, 20*time.Second)
+		for i := 1; i < c.Repeat && o.Status == "ok"; i++ {
+			o = RunOne(fn, c, 20*time.Second)
+		}
+		outs = append(outs, o)
 	}
 	ob, _ := json.MarshalIndent(outs, "", " ")
 	if outp == "" {
